@@ -2,14 +2,14 @@ import GuppyVerif.Lemmas.C01StoreSub
 /-! # C01 — wiring discipline of `DFContainer.__getitem__` / `__setitem__` (partial)
 
 Property theorems only.  They cover the pack/unpack discipline of struct and tuple places in
-`compiler/core.py` (model: `Model/Wiring.lean`; vocabulary: `Spec/C01.lean`), for **all** type
+`compiler/core.py` (model: `Model/DFWiring.lean`; vocabulary: `Spec/C01.lean`), for **all** type
 trees, place ids, locals maps and wire supplies — structural induction, no bounds.  The rest of
 C01 (whole-program HUGR validity) is *not* a Lean theorem; it is searched by the harness-side
 structural validator (`harness/props/c01_validate.py`).
 
 The denotation used is independent of the model: `evalOps` interprets the emitted
 `MakeTuple`/`UnpackTuple` ops over abstract values (trees of opaque atoms). -/
-namespace GuppyVerif.Wiring
+namespace GuppyVerif.DFWiring
 
 /-- **C01 (setitem stores leaves)**: after `dfg[p] = w` for a non-return place `p : t`, `locals`
     holds exactly the leaf sub-places of `p` (each with a wire created before the new supply),
@@ -187,4 +187,4 @@ example :
   refine RefRun.get (t' := T) (pv' := .tup [.val (.atom 9), .val (.atom 2)]) rfl rfl rfl ?_
   exact RefRun.nil _
 
-end GuppyVerif.Wiring
+end GuppyVerif.DFWiring
